@@ -1164,3 +1164,171 @@ Module Ex.
   Example d24_hyp : fr_none (mkF (new_reply is_digit is_ws (bs "550") []) true None) = true.
   Proof. reflexivity. Qed.
 End Ex.
+
+(* ====================================================================== *)
+(* 8. The grouping does not depend on the order of the relay's mapping     *)
+(* ====================================================================== *)
+
+Lemma filter_perm : forall (A : Type) (f : A -> bool) (l l' : list A),
+  Permutation l l' -> Permutation (filter f l) (filter f l').
+Proof.
+  intros A f l l' H. induction H as [|x l l' H IH|x y l|l l' l'' H1 IH1 H2 IH2].
+  - apply Permutation_refl.
+  - cbn [filter]. destruct (f x); [apply perm_skip|]; exact IH.
+  - cbn [filter]. destruct (f x); destruct (f y); try apply Permutation_refl. apply perm_swap.
+  - eapply Permutation_trans; eassumption.
+Qed.
+
+Lemma filter_same : forall (A : Type) (f g : A -> bool) (l : list A),
+  (forall x, f x = g x) -> filter f l = filter g l.
+Proof.
+  intros A f g l H. induction l as [|x l IH]; [reflexivity|].
+  cbn [filter]. rewrite H, IH. reflexivity.
+Qed.
+
+Lemma freply_eqb_congr : forall a r r', freply_eqb r r' = true -> freply_eqb a r = freply_eqb a r'.
+Proof.
+  intros a r r' H. apply freply_eqb_key in H.
+  destruct (freply_eqb a r) eqn:E1; destruct (freply_eqb a r') eqn:E2; try reflexivity.
+  - apply freply_eqb_key in E1. apply freply_eqb_false_key in E2. exfalso. apply E2. congruence.
+  - apply freply_eqb_key in E2. apply freply_eqb_false_key in E1. exfalso. apply E1. congruence.
+Qed.
+
+(* two groupings agree up to the order of the groups and of the recipients inside a group *)
+Definition groups_equiv (gs gs' : list (freply * list text)) : Prop :=
+  List.length gs = List.length gs' /\
+  forall r l, In (r, l) gs ->
+    exists r' l', In (r', l') gs' /\ freply_eqb r r' = true /\ Permutation l l'.
+
+Lemma gkeys_in_fails : forall fails k,
+  In k (gkeys (split_by_reply fails)) <-> In k (map (fun p => rkey (snd p)) fails).
+Proof.
+  intros fails k. destruct (ginv_split fails) as [Hnd Hex Hcov Hrep]. split; intro H.
+  - unfold gkeys in H. apply in_map_iff in H. destruct H as [[r l] [Hk Hin]]. subst k. cbn [fst].
+    destruct (Hrep r l Hin) as [rc Hrc].
+    apply in_map_iff. exists (rc, r). split; [reflexivity|exact Hrc].
+  - apply in_map_iff in H. destruct H as [p [Hk Hin]]. subst k.
+    destruct (Hcov p Hin) as [r [l [Hg He]]]. apply freply_eqb_key in He. rewrite He.
+    apply (in_gkeys (r, l)). exact Hg.
+Qed.
+
+Theorem groups_invariant : forall fails fails' : list (text * freply),
+  Permutation fails fails' ->
+  groups_equiv (split_by_reply fails) (split_by_reply fails').
+Proof.
+  intros fails fails' HP. split.
+  - (* same number of groups: the key lists are duplicate-free with the same elements *)
+    assert (Hl : List.length (gkeys (split_by_reply fails)) = List.length (gkeys (split_by_reply fails'))).
+    { apply Permutation_length. apply NoDup_Permutation.
+      - apply (gi_nodup _ _ (ginv_split fails)).
+      - apply (gi_nodup _ _ (ginv_split fails')).
+      - intro k. rewrite !gkeys_in_fails. split; intro H.
+        + eapply Permutation_in; [|exact H]. apply Permutation_map. exact HP.
+        + eapply Permutation_in; [|exact H]. apply Permutation_map. apply Permutation_sym. exact HP. }
+    unfold gkeys in Hl. rewrite !map_length in Hl. exact Hl.
+  - intros r l Hin.
+    destruct (ginv_split fails) as [_ Hex _ Hrep].
+    destruct (ginv_split fails') as [_ Hex' Hcov' _].
+    destruct (Hex r l Hin) as [Hl _]. destruct (Hrep r l Hin) as [rc Hrc].
+    assert (Hrc' : In (rc, r) fails') by (eapply Permutation_in; eassumption).
+    destruct (Hcov' (rc, r) Hrc') as [r' [l' [Hg' He]]]. cbn [snd] in He.
+    exists r', l'. split; [exact Hg'|]. split; [exact He|].
+    destruct (Hex' r' l' Hg') as [Hl' _]. subst l l'. unfold with_reply.
+    apply Permutation_map.
+    rewrite (filter_same _ (fun p => freply_eqb (snd p) r) (fun p => freply_eqb (snd p) r') fails)
+      by (intro x; apply freply_eqb_congr; exact He).
+    apply filter_perm. exact HP.
+Qed.
+
+(* the same for the loop of _handle_partial_relay: permuting the mapping
+   permutes the lists of transient and permanent failures (and does not change
+   whether list.index raises) *)
+Section Classify.
+
+  Definition crel (a b : option (list N * list (text * freply) * list (text * freply))) : Prop :=
+    match a, b with
+    | Some (_, t, p), Some (_, t', p') => Permutation t t' /\ Permutation p p'
+    | None, None => True
+    | _, _ => False
+    end.
+
+  Lemma crel_trans : forall a b c, crel a b -> crel b c -> crel a c.
+  Proof.
+    intros [[[d t] p]|] [[[d' t'] p']|] [[[d'' t''] p'']|]; cbn; try tauto.
+    intros [H1 H2] [H3 H4]. split; eapply Permutation_trans; eassumption.
+  Qed.
+
+  Lemma classify_perm_gen : forall rcpts items items',
+    Permutation items items' ->
+    forall dl dl' tf tf' pf pf', Permutation tf tf' -> Permutation pf pf' ->
+    crel (Bounce.classify rcpts items dl tf pf) (Bounce.classify rcpts items' dl' tf' pf').
+  Proof.
+    intros rcpts items items' H.
+    induction H as [|x l l' H IH|x y l|l l' l'' H1 IH1 H2 IH2]; intros dl dl' tf tf' pf pf' Ht Hp.
+    - cbn. split; assumption.
+    - destruct x as [rc res]. cbn [Bounce.classify]. destruct res as [|r|r|].
+      + destruct (index_of rc rcpts 0); [apply IH; assumption|exact I].
+      + destruct (index_of rc rcpts 0); [|exact I].
+        apply IH; [assumption|]. apply Permutation_app_tail. exact Hp.
+      + apply IH; [|assumption]. apply Permutation_app_tail. exact Ht.
+      + apply IH; assumption.
+    - assert (Hrefl : forall l0 d d' t t' p p', Permutation t t' -> Permutation p p' ->
+                      crel (Bounce.classify rcpts l0 d t p) (Bounce.classify rcpts l0 d' t' p')).
+      { induction l0 as [|[rc res] l0 IHl]; intros d d' t t' p p' Ht' Hp'.
+        - cbn. split; assumption.
+        - cbn [Bounce.classify]. destruct res as [|r|r|].
+          + destruct (index_of rc rcpts 0); [apply IHl; assumption|exact I].
+          + destruct (index_of rc rcpts 0); [|exact I].
+            apply IHl; [assumption|]. apply Permutation_app_tail. exact Hp'.
+          + apply IHl; [|assumption]. apply Permutation_app_tail. exact Ht'.
+          + apply IHl; assumption. }
+      assert (Hsw : forall (A : Type) (a a' : list A) u v, Permutation a a' ->
+                    Permutation ((a ++ [u]) ++ [v]) ((a' ++ [v]) ++ [u])).
+      { intros A a a' u v Ha. rewrite <- !app_assoc. apply Permutation_app; [exact Ha|]. apply perm_swap. }
+      destruct x as [rcx rx]; destruct y as [rcy ry]. cbn [Bounce.classify].
+      destruct ry as [|r1|r1|]; destruct rx as [|r2|r2|];
+        destruct (index_of rcy rcpts 0); destruct (index_of rcx rcpts 0); cbn [crel];
+        try exact I;
+        try (apply Hrefl; first [assumption | apply Hsw; assumption | apply Permutation_app_tail; assumption]).
+    - eapply crel_trans.
+      + apply (IH1 dl dl tf tf pf pf); apply Permutation_refl.
+      + apply IH2; assumption.
+  Qed.
+End Classify.
+
+(* C13_groups_invariant_under_mapping_order *)
+Theorem groups_invariant_under_mapping_order : forall rcpts items items' dl tf pf,
+  Permutation items items' ->
+  classify rcpts items [] [] [] = Some (dl, tf, pf) ->
+  exists dl' tf' pf',
+    classify rcpts items' [] [] [] = Some (dl', tf', pf') /\
+    groups_equiv (split_by_reply tf) (split_by_reply tf') /\
+    groups_equiv (split_by_reply pf) (split_by_reply pf').
+Proof.
+  intros rcpts items items' dl tf pf HP Hc.
+  assert (H := classify_perm_gen rcpts items items' HP [] [] [] [] [] []
+                 (Permutation_refl _) (Permutation_refl _)).
+  rewrite Hc in H.
+  destruct (classify rcpts items' [] [] []) as [[[dl' tf'] pf']|]; [|destruct H].
+  destruct H as [Ht Hp]. exists dl', tf', pf'. split; [reflexivity|].
+  split; apply groups_invariant; assumption.
+Qed.
+
+Module Ex2.
+  Import Ex.
+  (* the hypotheses of groups_invariant_under_mapping_order hold for a mapping and its reversal, and the
+     two groupings really differ (other order of groups and of recipients) *)
+  Definition rcpts0 := e_rcpts e0.
+  Definition items1 : list (text * rres) :=
+    [(bs "a@example.com", RRTemp r450); ([233; 64; 98], RRTemp r550); (bs "c@example.com", RRTemp r450)].
+  Example mapping_order_hyp :
+    Permutation items1 (rev items1) /\
+    (exists dl tf pf, classify rcpts0 items1 [] [] [] = Some (dl, tf, pf) /\
+                      map snd (split_by_reply tf) = [[bs "a@example.com"; bs "c@example.com"]; [[233; 64; 98]]]) /\
+    (exists dl tf pf, classify rcpts0 (rev items1) [] [] [] = Some (dl, tf, pf) /\
+                      map snd (split_by_reply tf) = [[bs "c@example.com"; bs "a@example.com"]; [[233; 64; 98]]]).
+  Proof.
+    split; [apply Permutation_rev|].
+    split; eexists; eexists; eexists; split; vm_compute; reflexivity.
+  Qed.
+End Ex2.
